@@ -6,7 +6,7 @@ from . import core
 
 BUILTIN = ["bool", "string", "int", "float", "strings", "ints", "floats"]
 MULTI = {"strings", "ints", "floats"}
-VALID = {"int": ["41", "010", "12", "0099", "-3", "+8", "0", "123456789"],
+VALID = {"int": ["41", "8589934592", "010", "12", "0099", "-3", "+8", "0", "-9223372036854775808"],
          "float": ["2.5", "1e3", "-0.5", "7", ".25", "1e-2", "3.", "64"],
          "bool": ["true", "false", "1", "T", "FALSE", "0", "t", "F"],
          "string": ["alpha", "--", " pad ", "-g", "d=e", "be ta", "Zeta", "x,y", "7"],
@@ -96,18 +96,28 @@ def concrete(typ, role, ptr, default, envpat, clipat, rnd, custom=None, tag=""):
             if string_like or typ == "custom":
                 elems = [e.strip().replace(",", ";") for e in elems]
             raw = " %s ,%s" % (elems[0], elems[1]) if i % 2 == 0 else "%s, %s " % (elems[0], elems[1])
+            if st == "invalid" and not (string_like or typ == "custom") and rnd.random() < 0.2:
+                # nothing but separators: two empty elements, invalid for numbers
+                elems, oks, raw_sep = ["", ""], [False, False], rnd.choice([",", " , "])
+            else:
+                raw_sep = None
             # a list that ends in a comma has an empty last element: one more (empty) string, or an invalid number
-            if rnd.random() < 0.25 and ((string_like or typ == "custom") and st == "valid" or not (string_like or typ == "custom") and st == "invalid" and typ != "custom"):
+            if raw_sep is None and rnd.random() < 0.25 and ((string_like or typ == "custom") and st == "valid" or not (string_like or typ == "custom") and st == "invalid" and typ != "custom"):
                 if not (string_like or typ == "custom"):
                     elems[1], oks[1] = tk.valid(), True
                 elems, oks = elems + [""], oks + [string_like or typ == "custom"]
                 raw = "%s,%s," % (elems[0], elems[1])
+            if raw_sep is not None:
+                raw = raw_sep
         else:
             elems = [tk.valid() if st == "valid" else tk.invalid()]
             if st == "valid" and (string_like or typ == "custom") and rnd.random() < 0.3:
                 elems = ["hello, world"]      # a comma means nothing for a single-valued variable
-            if st == "invalid" and typ in ("int", "float", "bool") and rnd.random() < 0.3:
-                elems = [{"int": "1,2", "float": "1,5", "bool": "false,true"}[typ]]
+            if st == "invalid" and typ in ("int", "float", "bool") and rnd.random() < 0.5:
+                # a comma, or blanks around the value: invalid for a single-valued number or bool (only list elements are trimmed)
+                elems = [rnd.choice([{"int": "1,2", "float": "1,5", "bool": "false,true"}[typ], {"int": " 8080", "float": "2.5 ", "bool": " true"}[typ]])]
+            if st == "valid" and string_like and rnd.random() < 0.2:
+                elems = [rnd.choice([" padded ", "  ", "\ttab"])]      # kept as they are
             oks = [st == "valid"]
             raw = elems[0]
         envs.append({"name": name, "state": "set", "value": raw})
